@@ -228,8 +228,7 @@ PROPS = {
                 "non-overlapping, each equal to one lexical token (UTF-16 length, comment without its line terminator), type/modifier inside "
                 "the legend), SPECSEM (valid programs: the exact expected stream from lexical class and Scope binding kind, declaration "
                 "modifier exactly on declaring occurrences). " + TEXT_RULE,
-        "unproved_parts": ["semtok_wellformed for all documents is judged on every run (JUDGESEM), the classification is compared with the "
-                           "specification (SPECSEM); only the delta arithmetic (C15.createSemTok_delta) is a theorem"],
+        "unproved_parts": ["semantic_tokens_decode / semantic_tokens_count are theorems for every document (the delta stream decodes to the start positions of the classified tokens, nothing shifted, dropped or duplicated); non-overlap and UTF-16 length of each token are judged on every run (JUDGESEM), the classification of identifiers is compared with the Scope specification (SPECSEM), neither is a theorem"],
     },
     "C16": {
         "rule": "valid programs, uncompressed layout; positions classified by construction: statement starts in bodies/blocks and before a "
@@ -243,7 +242,7 @@ PROPS = {
     "C17": {
         "rule": FEAT_RULE.replace("a share", "40%") + "FOLD (implementation vs model) and SPECFOLD (valid programs: one range per procedure in source "
                 "order from the line of `proc` after the doc comments to the line of the last token, by Grammar + LspPos). " + TEXT_RULE,
-        "unproved_parts": ["fold_exact (line numbers vs the specification) is compared on every run; one-range-per-procedure is a theorem"],
+        "unproved_parts": ["fold_one_per_procedure, skip_leading_comments_head, fold_wellformed (start line <= end line for every document whose tokens are the tokenisation of its text) are theorems; the exact line numbers and non-overlap are compared on every run with the specification (SPECFOLD), not theorems"],
     },
     "C03": {
         "rule": "G_prog well-typed programs (any order of declarations, nested array types, reference parameters, nested control flow, "
@@ -328,9 +327,7 @@ PROPS = {
                 "(encode = Content-Length of the byte length). Binary level: a non-ASCII session, all two-way splits (quick: every 7th), "
                 "random k-way splits, byte-wise and delayed delivery must yield the same responses, diagnostics and exit status; every "
                 "emitted frame's Content-Length must equal the byte length of its JSON body. " + TEXT_RULE,
-        "unproved_parts": ["EnvOK (stability under extension) is assumed for httparse::parse_headers; for the concrete Lean httparse model "
-                           "it is validated differentially (DEC/PROPSPLIT), not yet proved",
-                           "OS pipe delivery and write delays cannot be exhibited by the model; covered by the binary runs only"],
+        "unproved_parts": ["none for the modelled codec: chunk_independent holds without hypothesis (EnvOK is proved for the concrete header-parser model, C19.env_ok); the model of httparse::parse_headers is tied to the crate by the DEC correspondence only", "OS pipe delivery and write delays cannot be exhibited by the model; covered by the binary runs only"],
     },
     "C18": {
         "binary": True,
@@ -352,8 +349,7 @@ PROPS = {
                 "4th case: a history of didOpen / didChange batches incl. range-less changes with EMPTY text / didClose / reopen on two "
                 "documents through the REAL broker task, the server's copy probed after every step vs the Lean text model; histories on "
                 "which the document model predicts a panic of the tree layer are KF-C02's and not judged). " + TEXT_RULE,
-        "unproved_parts": ["position_roundtrip (index -> position -> index is the identity on character boundaries outside a CRLF pair) "
-                           "is evaluated (PROPRT, PROPTOK) on implementation and model, not yet a theorem"],
+        "unproved_parts": ["none for the model: index_eq_spec, sync and position_roundtrip are theorems; PROPRT/PROPTOK evaluate the round trip on the implementation on every run"],
     },
     "C06": {
         "rule": "G_text (weighted Unicode soup with quotes, CR, 0x, //, keyword prefixes, 2/3/4-byte chars) and "
